@@ -1,0 +1,39 @@
+//go:build verif
+
+// Contracts checked by /verif/gvc (contract-based deductive verification).
+// This file contains comments only; it is compiled only under the "verif" build tag.
+
+package session
+
+// Interface contract of session.Store as seen by the broker core. $sets / $lastSet: number of Set calls and the
+// session of the last one; $removes / $lastRemoved: the same for Remove; $expSets / $lastExpID / $lastExp for
+// SetSessionExpiry. Get returns nil, nil when there is no session for the client id.
+
+//@ ghost field (Store).sets int
+//@ ghost field (Store).lastSet *gmqtt.Session
+//@ ghost field (Store).removes int
+//@ ghost field (Store).lastRemoved string
+//@ ghost field (Store).expSets int
+//@ ghost field (Store).lastExpID string
+//@ ghost field (Store).lastExp uint32
+
+//@ func (Store).Get
+//@ params s, clientID
+//@ ensures result1 != nil ==> result0 == nil
+//@ ensures result0 != nil ==> result0.ClientID == clientID
+
+//@ func (Store).Set
+//@ params s, session
+//@ requires session != nil
+//@ modifies ghost(s.$sets), ghost(s.$lastSet)
+//@ ensures s.$sets == old(s.$sets) + 1 && s.$lastSet == session
+
+//@ func (Store).Remove
+//@ params s, clientID
+//@ modifies ghost(s.$removes), ghost(s.$lastRemoved)
+//@ ensures s.$removes == old(s.$removes) + 1 && s.$lastRemoved == clientID
+
+//@ func (Store).SetSessionExpiry
+//@ params s, clientID, expiry
+//@ modifies ghost(s.$expSets), ghost(s.$lastExpID), ghost(s.$lastExp)
+//@ ensures s.$expSets == old(s.$expSets) + 1 && s.$lastExpID == clientID && s.$lastExp == expiry
